@@ -118,9 +118,13 @@ var ripemd = common.StringToAddress("0000000000000000000000000000000000000003")
 
 func (ch touchChange) undo(s *AccountDB) {
 	if !ch.prev && *ch.account != ripemd {
-		s.getAccountObject(*ch.account, false).touched = ch.prev
+		obj := s.getAccountObject(*ch.account, false)
+		obj.touched = ch.prev
 		if !ch.prevDirty {
 			delete(s.accountObjectsDirty, *ch.account)
+			// touch() consumed the one-shot dirty hook; re-arm it, or later
+			// writes to this object would never mark it dirty again
+			obj.onDirty = s.MarkAccountObjectDirty
 		}
 	}
 }
